@@ -92,6 +92,178 @@ def _alloc_table(ctx, fa):
     return out
 
 
+def _loc_table(ctx, m):
+    """Histories of SoCLocHandler.add calls (n_locs = 1, 2, 4; every sequence of one or two requests over names a, b x location
+    None, -1, 0, 1, n_locs-1, n_locs x use_loc_if_exists, and the fill-up sequences of automatic requests) interpreted exactly on a
+    model handler whose add / alloc are the repository's own.  ([(kind, text)], #accepted, #refused)"""
+    import itertools
+    from .. import pyconst
+    from ..pyconst import NS, Native
+    cdef = m.classes["SoCLocHandler"]
+    silent = Native(lambda *a, **k: None)
+    out, n_ok, n_ref = [], 0, 0
+    for n_locs in (1, 2, 4):
+        alpha = [(nm, n, flag) for nm in ("a", "b") for n in sorted({-1, 0, 1, n_locs - 1, n_locs}) + [None] for flag in (False, True)]
+        seqs = [s_ for k in (1, 2) for s_ in itertools.product(alpha, repeat=k)]
+        seqs += [tuple((f"n{i}", None, False) for i in range(n_locs + 1))]
+        seqs += [(("x", n_locs - 1, False),) + tuple((f"n{i}", None, False) for i in range(n_locs))]
+        for seq in seqs:
+            me = NS(name="csr", locs={}, n_locs=n_locs, logger=NS(info=silent, error=silent, warning=silent))
+            try:
+                pyconst.bind(me, cdef, ["add", "alloc"])
+            except KeyError as ex:
+                ctx.need(False, f"SoCLocHandler: method {ex} vanished")
+            hist = []
+            for nm, n, flag in seq:
+                hist.append(f"add({nm!r}, n={n}{', use_loc_if_exists=True' if flag else ''})")
+                what = f"n_locs={n_locs}: " + " ; ".join(hist)
+                before = dict(me["locs"])
+                try:
+                    me["add"].fn(nm, n=n, use_loc_if_exists=flag)
+                    ok = True
+                except pyconst.Raised:
+                    ok = False
+                except pyconst.Unknowable as ex:
+                    ctx.need(False, f"SoCLocHandler.add cannot be interpreted on a model handler ({ex})")
+                if not ok:
+                    n_ref += 1
+                    break
+                n_ok += 1
+                locs = me["locs"]
+                vals = list(locs.values())
+                if nm in before:
+                    if not flag:
+                        out.append(("dup", f"{what}: `{nm}` already holds location {before[nm]} and the request is accepted"))
+                        break
+                    if locs != before:
+                        out.append(("dup", f"{what}: reusing the location of `{nm}` changed the table to {locs}"))
+                        break
+                    continue
+                if nm not in locs or not isinstance(locs[nm], int) or isinstance(locs[nm], bool) or (n is not None and locs[nm] != n):
+                    out.append(("stored", f"{what}: table is {locs}"))
+                    break
+                if len(set(vals)) != len(vals):
+                    out.append(("unique", f"{what}: table is {locs}"))
+                    break
+                if not all(isinstance(v, int) and 0 <= v < n_locs for v in vals):
+                    out.append(("range", f"{what}: table is {locs}"))
+                    break
+    ctx.analysed["paths"] += n_ok + n_ref
+    return out, n_ok, n_ref
+
+
+_REGION_POOL = {
+    # name: request (origin None = automatic); the IO window of the model bus is what the history declares
+    "io_hi":   dict(origin=0x80, size=0x80, io=True, cached=False),
+    "io_ovl":  dict(origin=0xC0, size=0x40, io=True, cached=False),     # overlaps io_hi
+    "io_lo":   dict(origin=0x40, size=0x20, io=True, cached=False),
+    "ram":     dict(origin=0x00, size=0x40),
+    "ram_ovl": dict(origin=0x20, size=0x20),                             # inside ram
+    "ram_np2": dict(origin=0x00, size=0x18),                             # decoded window 0x20
+    "ram_aft": dict(origin=0x18, size=0x08),                             # inside the decoded window of ram_np2
+    "dev":     dict(origin=0x80, size=0x10, cached=False),
+    "dev_c":   dict(origin=0x90, size=0x10, cached=True),                # cached inside IO
+    "dev_out": dict(origin=0x60, size=0x10, cached=False),               # uncached outside IO
+    "auto_c":  dict(origin=None, size=0x20, cached=True),
+    "auto_u":  dict(origin=None, size=0x10, cached=False),
+    "auto_c2": dict(origin=None, size=0x30, cached=True),
+    "lnk":     dict(origin=0x00, size=0x40, linker=True),
+    "ram#2":   dict(origin=0x70, size=0x08),                             # second request under the name `ram`
+    "io_hi#2": dict(origin=0x78, size=0x08),                             # a bus region under the name of an IO region
+}
+
+
+def _add_region_table(ctx, m):
+    """Histories of add_region calls (all sequences of one or two requests of _REGION_POOL, and the triples that start with an IO
+    region) interpreted exactly on a model bus handler whose methods are the repository's own (add_region, alloc_region,
+    check_regions_overlap, check_region_is_in / _is_io: lxs/pyconst.bind); SoCRegion is modelled as origin / size / size_pow2 /
+    cached / linker.  After every accepted call the state is compared with the statement of the property; a refused call ends the
+    history (the build stops there).  ([(kind, text)], #accepted, #refused)"""
+    import itertools
+    from .. import pyconst
+    from ..pyconst import NS, Native, _log2_int
+    cdef = m.classes["SoCBusHandler"]
+    silent = Native(lambda *a, **k: None)
+
+    def region(origin=None, size=None, mode="rw", cached=True, linker=False, decode=True, io=False):
+        return NS(origin=origin, size=size, size_pow2=2**_log2_int(size, False), cached=cached, linker=linker, mode=mode, decode=decode,
+                  __cls__=("SoCIORegion", "SoCRegion") if io else ("SoCRegion",))
+
+    def clash(r0, r1):
+        return r0["origin"] < r1["origin"] + r1["size_pow2"] and r1["origin"] < r0["origin"] + r0["size_pow2"]
+    names = list(_REGION_POOL)
+    seqs = [s_ for k in (1, 2) for s_ in itertools.permutations(names, k)]
+    seqs += [s_ for s_ in itertools.permutations(names, 3) if s_[0] in ("io_hi", "io_lo") and "#" not in s_[1]]
+    seqs += [("not_a_region",), ("io_hi", "not_a_region")]
+    out, n_ok, n_ref = [], 0, 0
+    for seq in seqs:
+        me = NS(regions={}, io_regions={}, io_regions_check=True, address_width=8, data_width=32,
+                logger=NS(info=silent, error=silent, warning=silent))
+        try:
+            pyconst.bind(me, cdef, ["check_regions_overlap", "check_region_is_in", "check_region_is_io", "alloc_region", "add_region"],
+                         consts={"SoCRegion": Native(region)})
+        except KeyError as ex:
+            ctx.need(False, f"SoCBusHandler: method {ex} vanished")
+        hist = []
+        for key in seq:
+            name = key.split("#")[0]
+            req = _REGION_POOL.get(key)
+            if req is not None:
+                req = dict({"cached": True}, **req)
+            obj = region(**req) if req else "a string"
+            hist.append(key)
+            what = f"history {' ; '.join(hist)}"
+            taken = name in me["regions"] or name in me["io_regions"]
+            try:
+                me["add_region"].fn(name, obj)
+                ok = True
+            except pyconst.Raised:
+                ok = False
+            except pyconst.Unknowable as ex:
+                ctx.need(False, f"SoCBusHandler.add_region cannot be interpreted on a model bus ({ex})")
+            if not ok:
+                n_ref += 1
+                break
+            n_ok += 1
+            if req is None:
+                out.append(("type", f"{what}: accepted"))
+                break
+            if taken:
+                out.append(("dup", f"{what}: the name `{name}` was already registered and the request is accepted"))
+                break
+            tab = me["io_regions"] if req.get("io") else me["regions"]
+            got = tab.get(name)
+            if not isinstance(got, NS) or not isinstance(got.get("origin"), int) or got.get("size") != req["size"]:
+                out.append(("stored", f"{what}: `{name}` is registered as {got!r}"))
+                break
+            regs = [r_ for r_ in me["regions"].values() if isinstance(r_, NS) and isinstance(r_.get("origin"), int)]
+            ios = [r_ for r_ in me["io_regions"].values() if isinstance(r_, NS)]
+            ov = [(a_, b_) for a_, b_ in itertools.combinations(regs, 2) if not (a_["linker"] or b_["linker"]) and clash(a_, b_)]
+            if ov:
+                out.append(("overlap", f"{what}: regions at {ov[0][0]['origin']:#x} (+{ov[0][0]['size']:#x}) and {ov[0][1]['origin']:#x} "
+                                       f"(+{ov[0][1]['size']:#x}) are both registered"))
+                break
+            ov = [(a_, b_) for a_, b_ in itertools.combinations(ios, 2) if clash(a_, b_)]
+            if ov:
+                out.append(("io-overlap", f"{what}: IO regions at {ov[0][0]['origin']:#x} and {ov[0][1]['origin']:#x} are both registered"))
+                break
+            if req.get("io") or req.get("linker"):
+                continue
+            inside = any(i_["origin"] <= got["origin"] and got["origin"] + got["size"] <= i_["origin"] + i_["size"] for i_ in ios)
+            if req["origin"] is None:
+                in_pow2 = any(i_["origin"] <= got["origin"] and got["origin"] + got["size"] <= i_["origin"] + i_["size_pow2"] for i_ in ios)
+                if got["origin"] % got["size_pow2"] or got["origin"] + got["size"] > 2**8 or (not req["cached"] and not in_pow2) or \
+                        got.get("cached") != req["cached"]:
+                    out.append(("alloc", f"{what}: `{name}` (size {req['size']:#x}, cached={req['cached']}) is placed at {got['origin']:#x}"))
+                    break
+            elif inside == bool(req["cached"]):
+                out.append(("io/cached", f"{what}: `{name}` at {got['origin']:#x} is {'cached' if req['cached'] else 'uncached'} and "
+                                         f"{'inside' if inside else 'outside'} the IO regions, and is accepted"))
+                break
+    ctx.analysed["paths"] += n_ok + n_ref
+    return out, n_ok, n_ref
+
+
 def _alloc_region_table(ctx, m, fn):
     """SoCBusHandler.alloc_region interpreted exactly (lxs/pyconst.py; check_regions_overlap is the repository's own, interpreted
     too; SoCRegion is modelled as origin/size/size_pow2/cached/linker) on a grid of memory maps: IO regions with aligned and odd
@@ -216,114 +388,21 @@ def run(ctx):
     ctx.rule("A5", "duplicate-name tests dominate the insertion (add_master/add_slave/add_constant/check_if_exists/"
                    "csr add_master)", min_sites=5)
 
-    # ================= A1: SoCBusHandler.add_region
+    # ================= A1: SoCBusHandler.add_region (histories interpreted on a model bus, see _add_region_table)
     fn = m.method("SoCBusHandler", "add_region")
-    paths = P.feasible_paths(fn)
-    ctx.analysed["paths"] += len(paths)
     ctx.analysed["functions"].add(f"{SOC}::SoCBusHandler.add_region")
-    nstores = 0
-    for reg in ("self.regions", "self.io_regions"):
-        bad = None
-        count = 0
-        for p in paths:
-            for i, e in enumerate(p.ev):
-                if not _is_store(e, reg):
-                    continue
-                count += 1
-                st = e[1]
-                val = norm(st.value)
-                # (a) value comes from the allocator
-                alloc = False
-                for j in range(i):
-                    ej = p.ev[j]
-                    if ej[0] == "stmt" and isinstance(ej[1], ast.Assign) and norm(ej[1].targets[0]) == val and \
-                            P.is_call_to(ej, "alloc_region"):
-                        alloc = True
-                if alloc:
-                    continue
-                # (b) followed by check_regions_overlap(<reg>) whose non-None result raises
-                k = -1
-                var = None
-                for j in range(i + 1, len(p.ev)):
-                    ej = p.ev[j]
-                    if ej[0] == "stmt" and P.is_call_to(ej, "check_regions_overlap"):
-                        calls = [c for c in P.calls_in(ej[1]) if norm(c.func).endswith("check_regions_overlap")]
-                        if calls and calls[0].args and norm(calls[0].args[0]) == reg:
-                            if isinstance(ej[1], ast.Assign) and ej[1].value is calls[0]:
-                                k = j
-                                var = norm(ej[1].targets[0])
-                                break
-                if k < 0:
-                    if p.end != "raise":
-                        bad = (p, st, "no check_regions_overlap(" + reg + ") after the store")
-                    continue
-                t = -1
-                sense = 0
-                for j in range(k + 1, len(p.ev)):
-                    ej = p.ev[j]
-                    if ej[0] == "test" and var and var in {n.id for n in ast.walk(ej[1]) if isinstance(n, ast.Name)}:
-                        t = j
-                        sense = _none_test(ej[1], var)
-                        break
-                if t < 0:
-                    if p.end != "raise":
-                        bad = (p, st, f"result `{var}` of the overlap check is never tested")
-                    continue
-                if sense == 0:
-                    bad = (p, st, f"test `{norm(p.ev[t][1])}` on the overlap result is not a plain None test (weakened check)")
-                    continue
-                pol = p.ev[t][2]
-                found = (sense > 0) == pol
-                if found and p.end != "raise":
-                    bad = (p, st, "an overlap is detected but the path does not raise")
-        nstores += count
-        ctx.ob("A1", SOC, "SoCBusHandler.add_region", f"store:{reg}:present", count > 0,
-               f"no store into {reg} found (anchor changed)", fn)
-        ctx.ob("A1", SOC, "SoCBusHandler.add_region", f"store {reg}[name] => overlap-checked or allocated", bad is None,
-               "" if bad is None else f"store at L{bad[1].lineno}: {bad[2]}; path {bad[0].show()[-200:]}",
-               bad[1] if bad else fn)
-    # duplicate name test first
-    bad = None
-    for p in paths:
-        si = p.index_where(lambda e: _is_store(e, "self.regions") or _is_store(e, "self.io_regions"))
-        if si < 0:
-            continue
-        if not (P.has_test(p, "name in self.regions.keys()", False, upto=si) and P.has_test(p, "name in self.io_regions.keys()", False, upto=si)):
-            bad = p
-    ctx.ob("A1", SOC, "SoCBusHandler.add_region", "duplicate-name test dominates the store", bad is None,
-           "" if bad is None else f"a store is reachable without the name-uniqueness test over regions and io_regions: {bad.show()[-160:]}", fn)
-    bad = None
-    for p in paths:
-        t1 = _test_idx(p, lambda t: "name in self.regions" in t)
-        if t1 >= 0 and p.ev[t1][2] and p.end != "raise":
-            bad = p
-    ctx.ob("A1", SOC, "SoCBusHandler.add_region", "duplicate name raises", bad is None,
-           "" if bad is None else "a duplicate region name does not raise", fn)
-    # IO/cached consistency
-    bad = None
-    n = 0
-    for p in paths:
-        ti = _test_idx(p, lambda t: "check_region_is_io" in t)
-        if ti < 0:
-            continue
-        n += 1
-        is_io = p.ev[ti][2]
-        tc = _test_idx(p, lambda t: t in ("region.cached", "not region.cached"), ti + 1)
-        if tc < 0:
-            if p.end != "raise":
-                bad = (p, "cached flag not tested after the IO test")
-            continue
-        txt, pol = norm(p.ev[tc][1]), p.ev[tc][2]
-        cached = pol if txt == "region.cached" else (not pol)
-        if cached == is_io and p.end != "raise":
-            bad = (p, f"is_io={is_io}, cached={cached} does not raise")
-    ctx.ob("A1", SOC, "SoCBusHandler.add_region", "IO <=> uncached consistency raises", bad is None and n > 0,
-           "" if (bad is None and n > 0) else (bad[1] if bad else "no check_region_is_io test found"), fn)
-    # unsupported region type raises
-    falls = [p for p in paths if p.end != "raise" and p.index_where(lambda e: _is_store(e, "self.regions") or
-                                                                      _is_store(e, "self.io_regions")) < 0]
-    ctx.ob("A1", SOC, "SoCBusHandler.add_region", "every normal exit stored the region", not falls,
-           "" if not falls else f"a path returns normally without storing or raising: {falls[0].show()[-160:]}", fn)
+    dev, n_ok, n_ref = _add_region_table(ctx, m)
+    ctx.ob("A1", SOC, "SoCBusHandler.add_region", "histories:present", n_ok >= 200 and n_ref >= 50,
+           f"only {n_ok} accepted / {n_ref} refused requests over the history grid (anchor changed)", fn)
+    for kind, role in (("overlap", "after every accepted request the bus regions are pairwise disjoint (power-of-two windows; linker regions aside)"),
+                       ("io-overlap", "after every accepted request the IO regions are pairwise disjoint"),
+                       ("stored", "an accepted request leaves the region registered under its name, placed, with the requested size"),
+                       ("io/cached", "a fixed region is accepted only if cached <=> outside every IO region (io_regions_check)"),
+                       ("alloc", "an allocated region lies inside the address space, inside an IO region when uncached, aligned on its decoded size"),
+                       ("dup", "a name already in use (region or IO region) is refused"),
+                       ("type", "an object that is not a region is refused")):
+        bad = [d for d in dev if d[0] == kind]
+        ctx.ob("A1", SOC, "SoCBusHandler.add_region", role, not bad, "" if not bad else f"{bad[0][1]} ({len(bad)} histories)", fn)
 
     # ================= A1: alloc_region (interpreted on concrete memory maps, see _alloc_region_table)
     fn = m.method("SoCBusHandler", "alloc_region")
@@ -345,42 +424,18 @@ def run(ctx):
         ctx.ob("A1", SOC, "SoCBusHandler.do_finalize", role, not bad, "" if not bad else f"{bad[0][1]} ({len(bad)} of the bus descriptions)",
                m.method("SoCBusHandler", "do_finalize"))
 
-    # ================= A1/A3: SoCLocHandler.add / alloc
+    # ================= A1/A3: SoCLocHandler.add / alloc (histories interpreted, see _loc_table)
     fn = m.method("SoCLocHandler", "add")
-    paths = P.feasible_paths(fn)
-    ctx.analysed["paths"] += len(paths)
-    bad = None
-    nst = 0
-    for p in paths:
-        si = p.index_where(lambda e: _is_store(e, "self.locs"))
-        if si < 0:
-            continue
-        nst += 1
-        pre = p.tests_before(si)
-        if not P.has_test(p, "name in self.locs.keys()", False, upto=si):
-            bad = (p, "name uniqueness test does not dominate the store")
-            break
-        if not P.has_test(p, "n in self.locs.values()", False, upto=si):
-            bad = (p, "number uniqueness test does not dominate the store")
-            break
-        alloc = any(e[0] == "stmt" and P.is_call_to(e, "alloc") and isinstance(e[1], ast.Assign) and
-                    norm(e[1].targets[0]) == "n" for e in p.ev[:si])
-        if not alloc:
-            lo = [pol for t, pol in pre if norm(t) in ("n < 0", "0 > n")]
-            if not lo or lo[-1] is not False:
-                bad = (p, "negative location not rejected before the store")
-                break
-            hi = [(t, pol) for t, pol in pre if "self.n_locs" in norm(t)]
-            if not hi:
-                bad = (p, "no upper-bound test before the store")
-                break
-    ctx.ob("A1", SOC, "SoCLocHandler.add", "locs[name] = n => unique name, unique number, in range or allocated",
-           bad is None and nst > 0, "" if (bad is None and nst > 0) else (bad[1] if bad else "no store into self.locs"), fn)
-    for tst in ("name in self.locs.keys()", "n in self.locs.values()", "n < 0"):
-        # (an existing name is accepted on request: `use_loc_if_exists and name in ...`)
-        badp = [p for p in paths if P.has_test(p, tst, True) and p.end != "raise" and not P.has_test(p, "use_loc_if_exists", True)]
-        ctx.ob("A1", SOC, "SoCLocHandler.add", f"`{tst}` raises", not badp,
-               "" if not badp else f"test `{tst}` true does not raise", fn)
+    ctx.analysed["functions"].add(f"{SOC}::SoCLocHandler.add")
+    dev, n_ok, n_ref = _loc_table(ctx, m)
+    ctx.ob("A1", SOC, "SoCLocHandler.add", "histories:present", n_ok >= 300 and n_ref >= 300,
+           f"only {n_ok} accepted / {n_ref} refused requests over the history grid (anchor changed)", fn)
+    for kind, role in (("unique", "locs[name] = n => no two names hold one location"),
+                       ("range", "every granted location lies in range(n_locs) (negative and n >= n_locs refused)"),
+                       ("dup", "a name already in use is refused unless its existing location is reused on request"),
+                       ("stored", "an accepted request leaves the name registered (an automatic one at a free location)")):
+        bad = [d for d in dev if d[0] == kind]
+        ctx.ob("A1", SOC, "SoCLocHandler.add", role, not bad, "" if not bad else f"{bad[0][1]} ({len(bad)} histories)", fn)
     loc_bound(ctx, "A3")
     fa = m.method("SoCLocHandler", "alloc")
     dev = _alloc_table(ctx, fa)
